@@ -7,6 +7,24 @@ BASE = "cd /repo && /venv/bin/python -m pytest -ra -q -p no:cacheprovider --time
 
 # property -> (category, technique, level text, level_note, design_ref)
 CLAIMED = {
+    "C09": (
+        "proof",
+        "contract-based deductive verification, template route: the real compiler's bytecode for lock templates is denoted for all calldata/state and composed with itself (two-run re-entry contract), discharged by z3",
+        "Per lock template, pipeline and EVM target (transient and storage lock), for all calldata, values and prior state: at every outgoing call/create inside a protected function a second run "
+        "of the contract entering any protected entry point (incl. __default__ under the pragma) fails; after a successful protected call (any return path, raw_return, loops, branches) the lock is free. "
+        "Per-instance proofs over the lock template family; cross-contract call trees deeper than one re-entry are not modelled.",
+        "Trusted: bytecode denotation (sem/), z3; the protected set is read from the front end. Violations are reported without a replayed transaction sequence (no-failing-input-found) "
+        "because the counterexample is a two-call history.",
+        "DESIGN.md 3/C09",
+    ),
+    "C11": (
+        "other",
+        "contract-based verification by exhaustive decision tables (FinEx): every cell of the static-rule tables (mutability lattice x call kind, state/environment access x mutability, "
+        "forbidden assignments, recursion, loop bounds) is run through the real front end and compared with the table the property dictates",
+        "Scoped: decides the rule kernels on their whole abstract domain (132 cells); does not decide 'accepted => promise holds at run time' for every program.",
+        "Trusted: the expected column (from the property statement).",
+        "DESIGN.md 3/C11",
+    ),
     "C16": (
         "proof",
         "contract-based deductive verification: PyVC proofs (all values, unrolling with unwinding assertions) of PUSH/PUSH_N/calc_push_size; per-instance lock-step decoding of assembly_to_evm output",
